@@ -1,4 +1,11 @@
-// spec/callsites.rs (draft)
+// ---------------------------------------------------------------------------
+// spec/callsites.rs -- specification vocabulary of the units `callsites*` (property C16).  Definitions only, nothing trusted.
+// Written from the property statement: a HIT is a position of the program (function, block, jump) holding a DIRECT call
+// `Jmp::Call { target, .. }` whose target satisfies a predicate p ("is an imported symbol on the list", "is ioctl", ..).
+// Hit lists are defined by recursion over jumps, blocks and functions IN PROGRAM ORDER: one entry per position, nothing else.
+// ---------------------------------------------------------------------------
+
+/// a hit: name of the calling function, tid of the calling jump, tid the call targets
 pub ghost struct CsHit { pub sub_name: Seq<char>, pub jmp_tid: Tid, pub target: Tid }
 
 pub open spec fn cs_key_hyp() -> bool {
@@ -248,4 +255,32 @@ pub open spec fn cs_426_post(ws: Seq<CweWarning>, subs: Map<Tid, Term<Sub>>, ext
     } else {
         ws.len() == 0
     }
+}
+
+// ---- C16, fourth clause: the PRNG check -------------------------------------------------------------------------------------
+
+/// "a configured (initializer, generator) pair whose generator is imported while the initializer is not"
+pub open spec fn cs_pair_flagged(ext: Map<Tid, ExternSymbol>, pair: (String, String)) -> bool {
+    cs_named(ext, pair.1@) && !cs_named(ext, pair.0@)
+}
+
+/// the flagged pairs among the first `n` configured pairs, in configuration order (with multiplicity)
+pub open spec fn cs_pairs_flagged(ext: Map<Tid, ExternSymbol>, pairs: Seq<(String, String)>, n: int) -> Seq<(String, String)>
+    decreases n
+{
+    if n <= 0 { Seq::empty() } else {
+        cs_pairs_flagged(ext, pairs, n - 1) + (if cs_pair_flagged(ext, pairs[n - 1]) { seq![pairs[n - 1]] } else { Seq::empty() })
+    }
+}
+
+/// a CWE332 warning: it carries no address, no tid and no symbol (the pair is only named in the description TEXT, which
+/// is not specified)
+pub open spec fn cs_warn_bare(w: CweWarning) -> bool {
+    w.addresses@.len() == 0 && w.tids@.len() == 0 && w.symbols@.len() == 0 && w.other@.len() == 0
+}
+
+/// THE POSTCONDITION of cwe_332::check_cwe: one (bare) warning per flagged pair
+pub open spec fn cs_332_post(ws: Seq<CweWarning>, ext: Map<Tid, ExternSymbol>, pairs: Seq<(String, String)>) -> bool {
+    &&& ws.len() == cs_pairs_flagged(ext, pairs, pairs.len() as int).len()
+    &&& forall |i: int| 0 <= i < ws.len() ==> cs_warn_bare(#[trigger] ws[i])
 }
